@@ -4,17 +4,21 @@
 
    [splits_cov s toks toks']: toks' is toks with some character tokens cut in two or more pieces ([TreeSplit.splits])
    and every token that is cut is processed - in the run of toks' from s - in a state satisfying [covered_at]:
-       foster parenting off, the current node is not a template element, and either
-         - the insertion mode is "text" (with the shape assumption of TreeModelRules.shape_check), or
-         - the insertion mode is "in body", "in caption" or "in template" (the latter two delegate character
-           tokens to "in body") and the adjusted current node is an HTML element (the token is not handled by the
-           foreign-content rules).
+       foster parenting off, the current node is not a template element, the shape assumption of
+       TreeModelRules.shape_check holds (it only says something in "in head", "in head noscript", "text", "in cell"
+       and "in table body"), and either
+         - the insertion mode is "text", or
+         - the insertion mode is "in body", "in caption", "in template" or "in cell" (the last three delegate
+           character tokens to "in body") and the adjusted current node is an HTML element, or
+         - the token is handled by the foreign-content rules (any insertion mode; [TreeSplitForeign.foreignb] of
+           the adjusted current node).
    [covered_atb] is the boolean version.
 
    [tree_split_run_partial]: under that side condition (and the tokenizer protocol for toks') the two runs end in
    states with the same core and the same DOM, or stop at the same Panic site / both out of fuel.
    Ingredients: TreeSplit.log_irrelevant_holds (the event log is write-only, TreeFrame.v), the line number of a
-   token is irrelevant ([process_token_line]), TreeSplit.text_mode_split_gen, TreeSplitBody.body_mode_split.
+   token is irrelevant ([process_token_line]), TreeSplit.text_mode_split_gen, TreeSplitBody.body_mode_split,
+   TreeSplitForeign.foreign_mode_split.
 
    NOT covered (a split in such a state is not allowed by [splits_cov]):
      - "in table" and the table-text modes: the characters are queued in pending_table_text and flushed by the next
@@ -22,17 +26,16 @@
      - the modes whose character arm answers SplitWhitespace (initial, before html, before head, in head,
        in head noscript, after head, in column group, after body, after after body, in frameset, after frameset,
        after after frameset): the white-space runs of a ++ b are not those of a followed by those of b;
-     - "in cell" (delegates to "in body"; its shape assumption would have to be carried through reconstruct),
-       "in table" with foster parenting, foreign content, a template element as the current node (template contents
-       are fetched once per piece: the second fetch is a no-op in DomSpec) and foster parenting (the two
-       OpAppendBasedOnParent of text would have to be merged in DomSpec): same argument as "in body", not carried out.
+     - "in table" with foster parenting, a template element as the current node (template contents are fetched once
+       per piece: the second fetch is a no-op in DomSpec) and foster parenting (the two OpAppendBasedOnParent of text
+       would have to be merged in DomSpec): same argument as "in body", not carried out.
    ======================================================================== *)
 From Coq Require Import List NArith Bool Arith Lia String.
 From HV Require Import Dom.DomSpec Dom.DomLemmas SinkSpec.Contract SinkSpec.ContractProofs.
 From HV Require Import Tree.TreeTypes Tree.TreeTables Tree.TreeModelHelpers Tree.TreeModelRules Tree.TreeModel
   Tree.TreeHoare Tree.TreeInvBasic Tree.TreeInvDefs Tree.TreeInvSetters Tree.TreeInvPrims Tree.TreeInvHelpers Tree.TreeInvDispatch
   Tree.TreeInvRules Tree.TreeInvModes Tree.TreeInvMain Tree.TreeContract Tree.TreeSkeleton Tree.TreeContractRun
-  Tree.TreeFrame Tree.TreeSplit Tree.TreeSplitBody.
+  Tree.TreeFrame Tree.TreeSplit Tree.TreeSplitBody Tree.TreeSplitForeign.
 Import ListNotations.
 Open Scope string_scope.
 Open Scope list_scope.
@@ -70,33 +73,46 @@ Proof.
 Qed.
 
 (* ---------- the covered states ---------- *)
+Definition mode_cov (s : st) : Prop :=
+  mode s = Text \/
+  (dmode (mode s) /\ adjusted_ns s = ns_html) \/
+  (exists h, adjusted_node s = Some h /\ foreignb s h = true).
+
 Definition covered_at (s : st) : Prop :=
   foster_parenting s = false /\
   (exists h, vlast (open_elems s) = Some h /\ named s h "template" = false) /\
-  ((mode s = Text /\ hshape_b s = true) \/ (dmode (mode s) /\ adjusted_ns s = ns_html)).
+  hshape_b s = true /\ mode_cov s.
+
+Definition mode_covb (s : st) : bool :=
+  mode_eqb (mode s) Text ||
+  ((mode_eqb (mode s) InBody || mode_eqb (mode s) InCaption || mode_eqb (mode s) InTemplate || mode_eqb (mode s) InCell) &&
+   str_eqb (adjusted_ns s) ns_html) ||
+  match adjusted_node s with Some h => foreignb s h | None => false end.
 
 Definition covered_atb (s : st) : bool :=
   negb (foster_parenting s) &&
   match vlast (open_elems s) with Some h => negb (named s h "template") | None => false end &&
-  ((mode_eqb (mode s) Text && hshape_b s) ||
-   ((mode_eqb (mode s) InBody || mode_eqb (mode s) InCaption || mode_eqb (mode s) InTemplate) &&
-    str_eqb (adjusted_ns s) ns_html)).
+  hshape_b s && mode_covb s.
+
+Lemma mode_covb_sound s : mode_covb s = true -> mode_cov s.
+Proof.
+  unfold mode_covb, mode_cov. intro H. apply orb_true_iff in H. destruct H as [H|H]; [apply orb_true_iff in H; destruct H as [H|H]|].
+  - left. apply mode_eqb_eq. exact H.
+  - right. left. apply andb_true_iff in H. destruct H as [A B]. split; [|apply TreeInvPrims.str_eqb_eq; exact B]. unfold dmode.
+    repeat (apply orb_true_iff in A; destruct A as [A|A]); apply mode_eqb_eq in A; tauto.
+  - right. right. destruct (adjusted_node s) as [h|]; [|discriminate]. exists h. split; [reflexivity | exact H].
+Qed.
 
 Lemma covered_atb_sound s : covered_atb s = true -> covered_at s.
 Proof.
   unfold covered_atb, covered_at. intro H.
-  apply andb_true_iff in H. destruct H as [H H3]. apply andb_true_iff in H. destruct H as [H1 H2].
+  apply andb_true_iff in H. destruct H as [H H4]. apply andb_true_iff in H. destruct H as [H H3].
+  apply andb_true_iff in H. destruct H as [H1 H2].
   split; [destruct (foster_parenting s); [discriminate | reflexivity]|].
   split.
   - destruct (vlast (open_elems s)) as [h|]; [|discriminate]. exists h. split; [reflexivity|].
     destruct (named s h "template"); [discriminate | reflexivity].
-  - apply orb_true_iff in H3. destruct H3 as [H3|H3]; apply andb_true_iff in H3; destruct H3 as [A B].
-    + left. split; [apply mode_eqb_eq; exact A | exact B].
-    + right. split; [|apply TreeInvPrims.str_eqb_eq; exact B]. unfold dmode.
-      apply orb_true_iff in A. destruct A as [A|A]; [apply orb_true_iff in A; destruct A as [A|A]|].
-      * left. apply mode_eqb_eq. exact A.
-      * right. left. apply mode_eqb_eq. exact A.
-      * right. right. apply mode_eqb_eq. exact A.
+  - split; [exact H3 | apply mode_covb_sound; exact H4].
 Qed.
 
 Theorem covered_split s line line' a b :
@@ -107,10 +123,12 @@ Theorem covered_split s line line' a b :
     process_token (TChars b) line' sa = Ok SContinue s2 /\
     same_core s1 s2 /\ dom_of s1 = dom_of s2 /\ TInv s1 /\ TInv s2.
 Proof.
-  intros I (Fp & (h & V & Nt) & [[Em Sh] | [Em A]]) Na Nb.
+  intros I (Fp & (h & V & Nt) & Sh & [Em | [[Em A] | F]]) Na Nb.
   - apply (text_mode_split_gen s line line' a b h); assumption.
   - apply body_mode_split; [|exact Na | exact Nb].
-    split; [exact I|]. split; [exact Em|]. split; [exact Fp|]. split; [exact A|]. exists h. split; assumption.
+    split; [exact I|]. split; [exact Em|]. split; [exact Sh|]. split; [exact Fp|]. split; [exact A|]. exists h. split; assumption.
+  - apply foreign_mode_split; [|exact Na | exact Nb].
+    split; [exact I|]. split; [exact Sh|]. split; [exact Fp|]. split; [exact F|]. exists h. split; assumption.
 Qed.
 
 (* ---------- token lists ---------- *)
@@ -260,3 +278,25 @@ Proof. apply splits_covb_sound. vm_compute. reflexivity. Qed.
 Example ex_split_same_dom :
   run_sim (run_tokens (init_state ex_opts) ex_split_whole []) (run_tokens (init_state ex_opts) ex_split_pieces []).
 Proof. apply tree_split_run_partial; [apply protocol_b_sound; vm_compute; reflexivity | exact ex_split_covered]. Qed.
+
+(* <!DOCTYPE html><table><td>yz<svg>uv with "yz" cut in "in cell" and "uv" cut in foreign content *)
+Definition ex_split_whole2 : list (token * N) :=
+  [ (TDoctype (Some (nm "html")) None None false, 1%N);
+    (TTag StartTag (nm "table") false [] false, 1%N);
+    (TTag StartTag (nm "td") false [] false, 1%N);
+    (TChars (nm "yz"), 1%N);
+    (TTag StartTag (nm "svg") false [] false, 1%N);
+    (TChars (nm "uv"), 1%N);
+    (TEof, 1%N) ].
+Definition ex_split_pieces2 : list (token * N) :=
+  [ (TDoctype (Some (nm "html")) None None false, 1%N);
+    (TTag StartTag (nm "table") false [] false, 1%N);
+    (TTag StartTag (nm "td") false [] false, 1%N);
+    (TChars (nm "y"), 1%N);
+    (TChars (nm "z"), 1%N);
+    (TTag StartTag (nm "svg") false [] false, 1%N);
+    (TChars (nm "u"), 1%N);
+    (TChars (nm "v"), 1%N);
+    (TEof, 1%N) ].
+Example ex_split_covered2 : splits_cov (init_state ex_opts) ex_split_whole2 ex_split_pieces2.
+Proof. apply splits_covb_sound. vm_compute. reflexivity. Qed.
